@@ -129,6 +129,7 @@ impl<'g> FnCx<'g> {
                 }
                 Ok(Val { steps, atom: format!("({})", atoms.join(", ")), prop: None, ty: Ty::Tuple(tys) })
             }
+            syn::Expr::Struct(st) => self.struct_lit(st),
             syn::Expr::Call(c) => self.call_expr(c, expect),
             syn::Expr::MethodCall(m) => self.method_expr(m, expect),
             syn::Expr::Try(t) => self.try_expr(t),
@@ -341,6 +342,16 @@ impl<'g> FnCx<'g> {
         }
     }
 
+    /// the strict order of a key type: the `lt_K` parameter of a generic function, or the built-in one
+    fn lt_for(&mut self, t: &Ty, sp: proc_macro2::Span) -> R<String> {
+        match self.u.resolve(t) {
+            Ty::Param(n) => Ok(format!("lt_{}", n)),
+            Ty::Int(it) if !it.signed() => Ok("(fun a b => decide (a < b))".into()),
+            Ty::Tuple(v) if v.len() == 2 && v.iter().all(|x| matches!(x, Ty::Int(it) if !it.signed())) => Ok("ltPair".into()),
+            other => unsupported(&format!("ordering on {:?}", other), sp),
+        }
+    }
+
     fn is_signed_ty(&mut self, t: &Ty) -> bool {
         matches!(self.u.resolve(t), Ty::Int(it) if it.signed())
     }
@@ -426,6 +437,17 @@ impl<'g> FnCx<'g> {
                 }
                 Ok(Val { steps: base.steps, atom, prop: None, ty: ts[n].clone() })
             }
+            (Ty::Struct(sn), syn::Member::Named(id)) => {
+                let fname = id.to_string();
+                let fields = self.g.structs.get(sn).cloned().unwrap_or_default();
+                match fields.iter().find(|(n, _)| *n == fname) {
+                    Some((_, t)) => {
+                        let prop = if *t == Ty::Bool { Some(format!("{}.{} = true", paren_atom(&base.atom), sanitize(&fname))) } else { None };
+                        Ok(Val { steps: base.steps, atom: format!("{}.{}", paren_atom(&base.atom), sanitize(&fname)), prop, ty: t.clone() })
+                    }
+                    None => unsupported(&format!("field {}.{} (not kept in the translation)", sn, fname), f.span()),
+                }
+            }
             _ => unsupported("field access", f.span()),
         }
     }
@@ -438,6 +460,25 @@ impl<'g> FnCx<'g> {
         let full = path_text(p);
         let last = path_last(p);
         let args: Vec<&syn::Expr> = c.args.iter().collect();
+        // a closure-typed parameter applied to arguments
+        if p.segments.len() == 1 {
+            if let Some(var) = self.lookup(&last) {
+                if let Ty::Fun(atys, rty) = self.u.resolve(&var.ty) {
+                    if atys.len() != args.len() {
+                        return unsupported("closure call arity", c.span());
+                    }
+                    let mut steps = vec![];
+                    let mut atoms = vec![];
+                    for (a, t) in args.iter().zip(atys.iter()) {
+                        let v = self.expr(a, Some(t))?;
+                        self.u.unify(t, &v.ty)?;
+                        steps.extend(v.steps);
+                        atoms.push(paren_atom(&v.atom));
+                    }
+                    return Ok(Val { steps, atom: format!("({} {})", var.lean, atoms.join(" ")), prop: None, ty: *rty });
+                }
+            }
+        }
         // constructors
         match (full.as_str(), args.len()) {
             ("Some", 1) => {
@@ -469,6 +510,8 @@ impl<'g> FnCx<'g> {
                 return Ok(Val { steps: vec![Step::Guard("False".into(), ".panic".into())], atom: "default".into(), prop: None, ty: expect.cloned().unwrap_or(Ty::Never) });
             }
             ("io::Error::new", 2) => return Ok(Val::pure("Err.io", Ty::Error)),
+            ("BitVec::new", 0) => return Ok(Val::pure("[]", Ty::list(Ty::Bool))),
+            // capacity hints are not modelled (the argument is not evaluated)
             ("Vec::new", 0) | ("String::new", 0) | ("Vec::with_capacity", 1) | ("String::with_capacity", 1) => {
                 let ty = match expect.map(|t| self.u.resolve(t)) {
                     Some(t @ Ty::List(_)) | Some(t @ Ty::Str) => t,
@@ -476,8 +519,8 @@ impl<'g> FnCx<'g> {
                         if full.starts_with("String") {
                             Ty::Str
                         } else {
-                            // element type fixed by later use; only integer elements can be inferred this way
-                            Ty::list(self.u.fresh())
+                            // element type fixed by later use
+                            Ty::list(self.u.fresh_any())
                         }
                     }
                 };
@@ -505,10 +548,8 @@ impl<'g> FnCx<'g> {
                     let from = self.u.resolve(&v.ty);
                     return match from {
                         Ty::Int(f) if lossless(f, t) => Ok(Val { steps: v.steps, atom: int_cast(f, t, &v.atom), prop: None, ty: Ty::Int(t) }),
-                        Ty::IVar(_) => {
-                            self.u.unify(&from, &Ty::Int(t))?;
-                            Ok(Val { steps: v.steps, atom: v.atom, prop: None, ty: Ty::Int(t) })
-                        }
+                        // type of the operand not fixed yet (pass 1): decided by its other uses
+                        Ty::IVar(_) => Ok(Val { steps: v.steps, atom: v.atom, prop: None, ty: Ty::Int(t) }),
                         _ => unsupported("T::from of this type", c.span()),
                     };
                 }
@@ -520,49 +561,169 @@ impl<'g> FnCx<'g> {
         }
         // translated functions
         if let Some(sig) = self.g.fns.get(&last).cloned() {
-            if sig.params.len() != args.len() {
-                return unsupported("call arity", c.span());
-            }
-            let mut steps = vec![];
-            let mut arg_atoms = vec![];
-            let mut rebinds = vec![];
-            for (prm, a) in sig.params.iter().zip(args.iter()) {
-                let v = self.expr(a, Some(&prm.ty))?;
-                self.u.unify(&prm.ty, &v.ty)?;
-                steps.extend(v.steps);
-                arg_atoms.push(paren_atom(&v.atom));
-                if prm.mut_ref {
-                    // `&mut x` or an already-&mut variable: rebind it from the callee's result
-                    let (_, var) = self.assign_target(match strip_paren(a) {
-                        syn::Expr::Reference(r) => &r.expr,
-                        other => other,
-                    })?;
-                    rebinds.push(var.lean);
-                }
-            }
-            if sig.fuel {
-                self.uses_fuel = true;
-            }
-            let payload = ret_payload(&sig.ret);
-            let mut pats = vec![];
-            let t = self.fresh_tmp();
-            if !matches!(payload, Ty::Unit) {
-                pats.push(t.clone());
-            }
-            pats.extend(rebinds);
-            let pat = if pats.is_empty() { "_".to_string() } else { tuple_text(&pats) };
-            let call = format!("{}{} {}", sig.lean, if sig.fuel { " fuel" } else { "" }, arg_atoms.join(" "));
-            // a callee returning `Result` hands the Result to the caller; we run it in the monad right away,
-            // which is what `?` would do; a caller that inspects the Err case instead is not supported
-            steps.push(Step::BindOk(pat, call));
-            let (atom, ty) = if matches!(payload, Ty::Unit) { ("()".to_string(), Ty::Unit) } else { (t, payload) };
-            // present the value with the callee's declared type so that `?` / tail return type-check
-            return Ok(match &sig.ret {
-                Ty::Res(_) => Val { steps, atom: format!("(Except.ok {})", atom), prop: None, ty: Ty::res(ty) },
-                _ => Val { steps, atom, prop: None, ty },
-            });
+            return self.emit_call(&sig, &args, c.span());
         }
         unsupported(&format!("call of {}", full), c.span())
+    }
+
+
+    /// substitute type parameters
+    fn subst(t: &Ty, m: &HashMap<String, Ty>) -> Ty {
+        match t {
+            Ty::Param(n) => m.get(n).cloned().unwrap_or_else(|| t.clone()),
+            Ty::List(a) => Ty::list(Self::subst(a, m)),
+            Ty::Opt(a) => Ty::opt(Self::subst(a, m)),
+            Ty::Res(a) => Ty::res(Self::subst(a, m)),
+            Ty::Res2(a, b) => Ty::Res2(Box::new(Self::subst(a, m)), Box::new(Self::subst(b, m))),
+            Ty::Tuple(v) => Ty::Tuple(v.iter().map(|x| Self::subst(x, m)).collect()),
+            Ty::Fun(a, r) => Ty::Fun(a.iter().map(|x| Self::subst(x, m)).collect(), Box::new(Self::subst(r, m))),
+            _ => t.clone(),
+        }
+    }
+
+    /// bind the type parameters of `pat` by matching it against the concrete `actual`
+    fn bind_params(pat: &Ty, actual: &Ty, m: &mut HashMap<String, Ty>) {
+        match (pat, actual) {
+            (Ty::Param(n), a) => {
+                m.entry(n.clone()).or_insert_with(|| a.clone());
+            }
+            (Ty::List(p), Ty::List(a)) | (Ty::Opt(p), Ty::Opt(a)) | (Ty::Res(p), Ty::Res(a)) => Self::bind_params(p, a, m),
+            (Ty::List(p), Ty::Str) => Self::bind_params(p, &Ty::u8(), m),
+            (Ty::Tuple(p), Ty::Tuple(a)) if p.len() == a.len() => {
+                for (x, y) in p.iter().zip(a.iter()) {
+                    Self::bind_params(x, y, m);
+                }
+            }
+            _ => {}
+        }
+    }
+
+    /// call of a translated function or method (`args` include the receiver for methods)
+    pub fn emit_call(&mut self, sig: &FnSig, args: &[&syn::Expr], sp: proc_macro2::Span) -> R<Val> {
+        if sig.params.len() != args.len() {
+            return unsupported("call arity", sp);
+        }
+        let mut steps = vec![];
+        let mut arg_atoms = vec![];
+        let mut rebinds = vec![];
+        let mut m: HashMap<String, Ty> = HashMap::new();
+        for (prm, a) in sig.params.iter().zip(args.iter()) {
+            let want = Self::subst(&prm.ty, &m);
+            let v = if let (Ty::Fun(atys, _), syn::Expr::Closure(cl)) = (&want, strip_paren(a)) {
+                self.closure_arg(cl, atys)?
+            } else {
+                self.expr(a, Some(&want))?
+            };
+            let got = self.u.resolve(&v.ty);
+            Self::bind_params(&want, &got, &mut m);
+            if let (Ty::Fun(_, pr), Ty::Fun(_, ar)) = (&want, &got) {
+                Self::bind_params(pr, ar, &mut m);
+            }
+            let want2 = Self::subst(&prm.ty, &m);
+            self.u.unify(&want2, &got)?;
+            steps.extend(v.steps);
+            arg_atoms.push(paren_atom(&v.atom));
+            if prm.mut_ref {
+                let (_, var) = self.assign_target(match strip_paren(a) {
+                    syn::Expr::Reference(r) => &r.expr,
+                    other => other,
+                })?;
+                rebinds.push(var.lean);
+            }
+        }
+        if sig.fuel {
+            self.uses_fuel = true;
+        }
+        // orderings of the instantiated type parameters
+        let mut gen_args = String::new();
+        for (gname, ord) in &sig.generics {
+            if *ord {
+                let t = m.get(gname).cloned().ok_or(format!("unsupported: cannot infer type parameter {}", gname))?;
+                gen_args.push_str(&format!(" {}", self.lt_for(&t, sp)?));
+            }
+        }
+        let ret = Self::subst(&sig.ret, &m);
+        let payload = ret_payload(&ret);
+        let mut pats = vec![];
+        let t = self.fresh_tmp();
+        if !matches!(payload, Ty::Unit) {
+            pats.push(t.clone());
+        }
+        pats.extend(rebinds);
+        let pat = if pats.is_empty() { "_".to_string() } else { tuple_text(&pats) };
+        let call = format!("{}{}{} {}", sig.lean, gen_args, if sig.fuel { " fuel" } else { "" }, arg_atoms.join(" "));
+        // a callee returning `Result` hands the Result to the caller; we run it in the monad right away,
+        // which is what `?` would do; a caller that inspects the Err case instead is not supported
+        steps.push(Step::BindOk(pat, call));
+        let (atom, ty) = if matches!(payload, Ty::Unit) { ("()".to_string(), Ty::Unit) } else { (t, payload) };
+        Ok(match &ret {
+            Ty::Res(_) => Val { steps, atom: format!("(Except.ok {})", atom), prop: None, ty: Ty::res(ty) },
+            _ => Val { steps, atom, prop: None, ty },
+        })
+    }
+
+    /// a closure literal passed where `Fn(A..) -> R` is expected: a pure Lean lambda
+    fn closure_arg(&mut self, cl: &syn::ExprClosure, atys: &[Ty]) -> R<Val> {
+        if cl.inputs.len() != atys.len() {
+            return unsupported("closure arity", cl.span());
+        }
+        self.scopes.push(HashMap::new());
+        let mut names = vec![];
+        let mut psteps = vec![];
+        for (i, (p, t)) in cl.inputs.iter().zip(atys.iter()).enumerate() {
+            let n = format!("a{}_", i);
+            self.bind_pattern(p, &n, t, &mut psteps)?;
+            names.push(n);
+        }
+        let b = self.expr(&cl.body, None)?;
+        self.scopes.pop();
+        if !b.steps.is_empty() {
+            return unsupported("closure with a fallible body", cl.span());
+        }
+        let body = wrap(&psteps, b.atom.clone());
+        Ok(Val { steps: vec![], atom: format!("(fun {} => {})", names.join(" "), paren(&body)), prop: None, ty: Ty::Fun(atys.to_vec(), Box::new(b.ty)) })
+    }
+
+    fn struct_lit(&mut self, st: &syn::ExprStruct) -> R<Val> {
+        let name = path_last(&st.path);
+        let fields = self.g.structs.get(&name).cloned().ok_or(format!("unsupported: struct literal of {}", name))?;
+        let mut steps = vec![];
+        let mut inits = vec![];
+        let mut seen = vec![];
+        for fv in &st.fields {
+            let fname = match &fv.member {
+                syn::Member::Named(i) => i.to_string(),
+                _ => return unsupported("tuple struct literal", st.span()),
+            };
+            match fields.iter().find(|(n, _)| *n == fname) {
+                Some((_, fty)) => {
+                    let v = self.expr(&fv.expr, Some(fty))?;
+                    self.u.unify(fty, &v.ty)?;
+                    steps.extend(v.steps);
+                    inits.push(format!("{} := {}", sanitize(&fname), v.atom));
+                    seen.push(fname);
+                }
+                None => {
+                    // a dropped field: evaluated for its panics only
+                    let v = self.expr(&fv.expr, None)?;
+                    steps.extend(v.steps);
+                }
+            }
+        }
+        let atom = match &st.rest {
+            None => {
+                if seen.len() != fields.len() {
+                    return unsupported("struct literal with missing fields", st.span());
+                }
+                format!("{{ {} : {} }}", inits.join(", "), name)
+            }
+            Some(base) => {
+                let b = self.expr(base, Some(&Ty::Struct(name.clone())))?;
+                steps.extend(b.steps);
+                format!("{{ {} with {} }}", b.atom, inits.join(", "))
+            }
+        };
+        Ok(Val { steps, atom, prop: None, ty: Ty::Struct(name) })
     }
 
     fn try_expr(&mut self, t: &syn::ExprTry) -> R<Val> {
@@ -637,6 +798,45 @@ impl<'g> FnCx<'g> {
                         };
                         Ok(Val { steps: inner.steps, atom: format!("(rsEnumerate {})", paren_atom(&inner.atom)), prop: None, ty: Ty::list(Ty::Tuple(vec![Ty::usize(), el])) })
                     }
+                    "zip" if m.args.len() == 1 => {
+                        let left = self.iter_expr(&m.receiver)?;
+                        let lel = match self.u.resolve(&left.ty) {
+                            Ty::List(t) => *t,
+                            Ty::Str => Ty::u8(),
+                            _ => return unsupported("zip of a non-list", e.span()),
+                        };
+                        let mut steps = left.steps.clone();
+                        // `b.chain(std::iter::repeat(x))`: the right side padded for ever
+                        if let syn::Expr::MethodCall(ch) = strip_paren(&m.args[0]) {
+                            if ch.method == "chain" && ch.args.len() == 1 {
+                                if let syn::Expr::Call(rc) = strip_paren(&ch.args[0]) {
+                                    if let syn::Expr::Path(rp) = &*rc.func {
+                                        if path_last(&rp.path) == "repeat" && rc.args.len() == 1 {
+                                            let right = self.iter_expr(&ch.receiver)?;
+                                            let rel = match self.u.resolve(&right.ty) {
+                                                Ty::List(t) => *t,
+                                                Ty::Str => Ty::u8(),
+                                                _ => return unsupported("zip with a non-list", e.span()),
+                                            };
+                                            let pad = self.expr(&rc.args[0], Some(&rel))?;
+                                            self.u.unify(&rel, &pad.ty)?;
+                                            steps.extend(right.steps);
+                                            steps.extend(pad.steps);
+                                            return Ok(Val { steps, atom: format!("(rsZipPad {} {} {})", paren_atom(&left.atom), paren_atom(&right.atom), paren_atom(&pad.atom)), prop: None, ty: Ty::list(Ty::Tuple(vec![lel, rel])) });
+                                        }
+                                    }
+                                }
+                            }
+                        }
+                        let right = self.iter_expr(&m.args[0])?;
+                        let rel = match self.u.resolve(&right.ty) {
+                            Ty::List(t) => *t,
+                            Ty::Str => Ty::u8(),
+                            _ => return unsupported("zip with a non-list", e.span()),
+                        };
+                        steps.extend(right.steps);
+                        Ok(Val { steps, atom: format!("(List.zip {} {})", paren_atom(&left.atom), paren_atom(&right.atom)), prop: None, ty: Ty::list(Ty::Tuple(vec![lel, rel])) })
+                    }
                     "rev" => {
                         let inner = self.iter_expr(&m.receiver)?;
                         Ok(Val { steps: inner.steps, atom: format!("{}.reverse", paren_atom(&inner.atom)), prop: None, ty: inner.ty })
@@ -670,11 +870,39 @@ impl<'g> FnCx<'g> {
     }
 
     pub fn is_mutating_method(&self, m: &syn::ExprMethodCall) -> bool {
-        matches!(m.method.to_string().as_str(), "push" | "push_str" | "clear" | "truncate" | "extend_from_slice")
+        matches!(m.method.to_string().as_str(), "push" | "push_str" | "clear" | "truncate" | "extend_from_slice" | "resize" | "store_le")
     }
 
     /// `v.push(x)` and friends as a statement: rebind the receiver
     pub fn mutating_method(&mut self, m: &syn::ExprMethodCall) -> R<Vec<Step>> {
+        if m.method == "store_le" {
+            // bits[a..b].store_le::<u8>(v) on an Lsb0 bit vector
+            let ix = match strip_paren(&m.receiver) {
+                syn::Expr::Index(ix) => ix,
+                _ => return unsupported("store_le on something other than a sub-range", m.span()),
+            };
+            let r = match strip_paren(&ix.index) {
+                syn::Expr::Range(r) if matches!(r.limits, syn::RangeLimits::HalfOpen(_)) && r.start.is_some() && r.end.is_some() => r,
+                _ => return unsupported("store_le range form", m.span()),
+            };
+            let (_, var) = self.assign_target(&ix.expr)?;
+            if self.u.resolve(&var.ty) != Ty::list(Ty::Bool) || m.args.len() != 1 {
+                return unsupported("store_le on a non-bit-vector", m.span());
+            }
+            let lo = self.expr(r.start.as_ref().unwrap(), Some(&Ty::usize()))?;
+            let hi = self.expr(r.end.as_ref().unwrap(), Some(&Ty::usize()))?;
+            let v = self.expr(&m.args[0], None)?;
+            match self.u.resolve(&v.ty) {
+                Ty::Int(it) if !it.signed() => {}
+                Ty::IVar(_) if !self.pass2 => {}
+                _ => return unsupported("store_le of a non-unsigned value", m.span()),
+            }
+            let mut steps = lo.steps.clone();
+            steps.extend(hi.steps.clone());
+            steps.extend(v.steps.clone());
+            steps.push(Step::BindOk(var.lean.clone(), format!("rsStoreLe {} {} {} {}", var.lean, paren_atom(&lo.atom), paren_atom(&hi.atom), paren_atom(&v.atom))));
+            return Ok(steps);
+        }
         let (name, var) = self.assign_target(&m.receiver)?;
         let vty = self.u.resolve(&var.ty);
         let elem = match &vty {
@@ -707,6 +935,15 @@ impl<'g> FnCx<'g> {
                 format!("{} ++ {}", var.lean, a.atom)
             }
             ("clear", 0) => "[]".to_string(),
+            ("resize", 2) => {
+                let n = self.expr(&m.args[0], Some(&Ty::usize()))?;
+                self.u.unify(&n.ty, &Ty::usize())?;
+                let v = self.expr(&m.args[1], Some(&elem))?;
+                self.u.unify(&elem, &v.ty)?;
+                steps.extend(n.steps.clone());
+                steps.extend(v.steps.clone());
+                format!("rsResize {} {} {}", var.lean, paren_atom(&n.atom), paren_atom(&v.atom))
+            }
             ("truncate", 1) => {
                 let a = self.expr(&m.args[0], Some(&Ty::usize()))?;
                 steps.extend(a.steps.clone());
@@ -722,6 +959,13 @@ impl<'g> FnCx<'g> {
         let name = m.method.to_string();
         let recv = self.expr(&m.receiver, None)?;
         let rty = self.u.resolve(&recv.ty);
+        if let Ty::Struct(sn) = &rty {
+            if let Some(sig) = self.g.fns.get(&format!("{}::{}", sn, name)).cloned() {
+                let mut args: Vec<&syn::Expr> = vec![&m.receiver];
+                args.extend(m.args.iter());
+                return self.emit_call(&sig, &args, m.span());
+            }
+        }
         let a = recv.atom.clone();
         let mut steps = recv.steps.clone();
         let nargs = m.args.len();
@@ -753,6 +997,23 @@ impl<'g> FnCx<'g> {
                 self.u.unify(&arg.ty, &Ty::usize())?;
                 steps.extend(arg.steps.clone());
                 pure(steps, format!("{}[{}]?", paren_atom(&a), arg.atom), Ty::opt((**t).clone()))
+            }
+            (Ty::List(t), "binary_search_by_key", 2) => {
+                // slice.binary_search_by_key(&key, f): std's algorithm over the mapped keys (Rs.binarySearchBy)
+                let f = self.expr(&m.args[1], None)?;
+                let (kty, ford) = match self.u.resolve(&f.ty) {
+                    Ty::Fun(a, r) if a.len() == 1 => {
+                        self.u.unify(&a[0], t)?;
+                        (*r, f.atom.clone())
+                    }
+                    _ => return unsupported("binary_search_by_key with a non-closure-parameter", m.span()),
+                };
+                let key = self.expr(&m.args[0], Some(&kty))?;
+                self.u.unify(&key.ty, &kty)?;
+                steps.extend(key.steps.clone());
+                steps.extend(f.steps.clone());
+                let lt = self.lt_for(&kty, m.span())?;
+                pure(steps, format!("(binarySearchBy {} ({}.map {}) {})", lt, paren_atom(&a), ford, paren_atom(&key.atom)), Ty::Res2(Box::new(Ty::usize()), Box::new(Ty::usize())))
             }
             (Ty::List(t), "first", 0) => pure(steps, format!("{}.head?", paren_atom(&a)), Ty::opt((**t).clone())),
             (Ty::List(t), "last", 0) => pure(steps, format!("{}.getLast?", paren_atom(&a)), Ty::opt((**t).clone())),
